@@ -73,7 +73,12 @@ func (x *X) write(sb *strings.Builder, d int) {
 		if x.Addr && d == 0 {
 			sb.WriteString("&")
 		}
-		x.Args[0].write(sb, d+1)
+		// a field of a value loaded through a pointer reads the same as the field through the pointer
+		if base := x.Args[0]; base.Op == "deref" && len(base.Args) == 1 {
+			base.Args[0].write(sb, d+1)
+		} else {
+			base.write(sb, d+1)
+		}
 		sb.WriteString("." + x.Name)
 		return
 	case "extract":
